@@ -665,6 +665,14 @@ def _origin_of_root(F, f, tr, r, anchors, depth):
         for x in tr.roots_of_operand(t["args"][0]):
             out |= _origin_of_root(F, f, tr, x, anchors, depth + 1)
         return out
+    if r.kind == "call" and r.id.startswith("platform::") and f.term(r.block)["args"] and r.block not in chan:
+        # an accessor of a crate endpoint type (consume_fd, fd(), ...): the descriptor of its receiver argument
+        t = f.term(r.block)
+        if f.local_ty(t["dest"]["l"]) in ("i32",):
+            out = set()
+            for x in tr.roots_of_operand(t["args"][0]):
+                out |= _origin_of_root(F, f, tr, x, anchors, depth + 1)
+            return out
     if r.kind == "agg" and r.id == "array":
         # element of a local array: which one?
         for p_ in r.path:
